@@ -473,7 +473,7 @@ def gen_plan(rng, nleaves=None, nfam=None, fancy_names=False, use_internal=None,
     if nleaves is None:
         nleaves = rng.randint(2, max_leaves)
     shape = rng.choice([None, None, None, None, 'caterpillar', 'balanced', 'star'])
-    if dup_heavy:
+    if dup_heavy and dup_heavy != 'narrow':
         shape = rng.choice(['balanced', 'balanced', None])
     pl.tree = gen_tree(rng, nleaves, max_arity=rng.choice([2, 3, 4, 5]), fancy_names=fancy_names, shape=shape, unary=unary)
     pl.use_internal = (rng.random() < 0.6) if use_internal is None else use_internal
@@ -490,7 +490,10 @@ def gen_plan(rng, nleaves=None, nfam=None, fancy_names=False, use_internal=None,
         # duplication-heavy families: HOGs all of whose children are copies, several duplications under one HOG
         p_loss = min(p_loss, 0.1)
     p_narrow = rng.choice([0.0, 0.0, 0.3, 0.6])
-    if dup_heavy:
+    if dup_heavy == 'narrow':
+        # many duplications whose copies survive in single sub-lineages: copies of one event at different depths
+        p_loss, p_dup, p_narrow = 0.25, 0.5, 0.6
+    elif dup_heavy:
         # nearly every branch duplicates and nothing is lost: HOGs with several duplications and no plain child
         p_loss, p_dup, p_narrow = 0.0, 0.85, 0.0
     for _ in range(nfam):
